@@ -222,12 +222,12 @@ def run_impl(cmd, case_lines, timeout=120):
         fr = re.findall(rb"#\d+ 0x[0-9a-f]+ in (\w+) [^\n]*?([\w.]+\.[ch]):(\d+)", se)
         if fr: detail += " at " + " < ".join("%s(%s:%s)" % (a.decode(), b.decode(), c.decode()) for a, b, c in fr[:4])
         crashes.append((pending[k], kind, detail))
-        outs.append("#crash")
+        outs.append(pending[k].rstrip("\n") + " crash=1")
         pending = pending[k + 1:]
     return outs, crashes
 
 def run_driver(lines, limit=200):
-    data = "".join(l + "\n" for l in lines if not l.startswith("#crash")).encode("utf-8", "surrogateescape")
+    data = "".join(l + "\n" for l in lines).encode("utf-8", "surrogateescape")
     p = subprocess.run([DRIVER, str(limit)], input=data, stdout=subprocess.PIPE, stderr=subprocess.PIPE, timeout=3000)
     out = p.stdout.decode("utf-8", "surrogateescape").split("\n")
     res = {"diff": [], "specfail": [], "badcase": [], "summary": {}, "rc": p.returncode, "stderr": p.stderr.decode("utf-8", "replace")[-500:]}
